@@ -25,7 +25,8 @@ MODEL_TYPES = ['line', 'line2', 'spring', 'tri', 'tri2', 'quad', 'quad2', 'polyg
 # ------------------------------------------------------------------ impl
 def run_impl(ctx, cases, tag='impl'):
     spec = {'out': str(ctx.scratch / f'{tag}_out.json'),
-            'cases': [{'id': c['id'], 'mesh': c['mesh'], 'queries': c['queries']} for c in cases]}
+            'cases': [{'id': c['id'], 'mesh': c['mesh'], 'queries': c['queries'],
+                       'shared': bool(c.get('shared'))} for c in cases]}
     r = subprocess.run([lib.PY, str(lib.VERIF / 'harness' / 'c13_impl.py')],
                        input=json.dumps(spec), text=True, capture_output=True,
                        env=lib.impl_env(), timeout=1500)
@@ -336,6 +337,21 @@ def gen_cases(ctx):
         mesh = gen.gen_mesh(ctx.rng, kind=kind, max_nodes=mx)
         cases.append({'id': len(cases), 'mesh': mesh,
                       'queries': queries_for(ctx.rng, mesh, ctx.tier)})
+    # same-object stream: the whole (shuffled) query sequence of every third mesh
+    # is repeated on ONE FEMData object, led by the 1-hop queries whose working
+    # matrix aliases the cached adjacency
+    for c in list(cases)[::3]:
+        qs = [q for q in c['queries'] if not (q['kind'] == 'e2v' and q['self_loop'])]
+        ctx.rng.shuffle(qs)
+        lead = []
+        for nd in ctx.rng.sample([True, False], 2):
+            lead.append({'kind': 'hop', 'nodal': nd, 'n': 1, 'self_loop': False, 'order1': False})
+            # the call form that hits the lru_cache entry n_hop filled
+            lead.append({'kind': 'adj', 'nodal': nd, 'order1': False,
+                         'via': 'direct' if nd else 'noarg'})
+            lead.append({'kind': 'e2v', 'nodal': nd, 'self_loop': False})
+            lead.append({'kind': 'hop', 'nodal': nd, 'n': 1, 'self_loop': True, 'order1': False})
+        cases.append({'id': len(cases), 'mesh': c['mesh'], 'queries': lead + qs, 'shared': True})
     for i in range(4 if ctx.tier == 'quick' else 20):
         mesh = gen.gen_mesh(ctx.rng, kind=ctx.rng.choice(['tri', 'tet', 'hex']), n_unref=0)
         m, qs = malformed(ctx.rng, mesh)
@@ -394,6 +410,9 @@ def shrink(ctx, case, qi, pred, rounds=6):
     """greedy: drop elements / unreferenced nodes while `pred(types, results,
     oracle_fail, corr, id)` still holds for query qi"""
     cur = {'id': 0, 'mesh': case['mesh'], 'queries': [case['queries'][qi]]}
+    if case.get('shared'):
+        return {'id': 0, 'mesh': case['mesh'], 'queries': case['queries'][:qi + 1],
+                'shared': True}
     for rd in range(rounds):
         cands = []
         for bi, (t, rows) in enumerate(cur['mesh']['blocks']):
@@ -458,10 +477,15 @@ def report(ctx, cases, ev, do_shrink=True):
                 want = d.split(':')[0]
                 small = shrink(ctx, c, qi, lambda ev2, i: any(
                     x[1].split(':')[0] == want for x in ev2[2][i]))
-                sqi = 0
-                r = run_impl(ctx, [small], tag='shrunk')[1][0][0]
+                sqi = len(small['queries']) - 1 if small.get('shared') else 0
+                r = run_impl(ctx, [small], tag='shrunk')[1][0][sqi]
+            if c.get('shared'):
+                sig = dict(sig, same_object_sequence=True)
             ctx.violation('impl-violation',
-                          {'mesh': describe(small['mesh']), 'query': small['queries'][sqi]},
+                          {'mesh': describe(small['mesh']), 'query': small['queries'][sqi],
+                           'shared_object': bool(small.get('shared')),
+                           'earlier_queries_on_the_same_object':
+                               small['queries'][:sqi] if small.get('shared') else []},
                           'matrix equals its combinatorial definition (' + d + ')',
                           {k: r.get(k) for k in ('shape', 'triples', 'exc', 'msg', 'elem_ids')},
                           'property oracle on the implementation / C13 theorems',
@@ -492,10 +516,15 @@ def report(ctx, cases, ev, do_shrink=True):
             if do_shrink and budget > 0 and json.dumps(sig, sort_keys=True) not in ctx._seen_sigs:
                 budget -= 1
                 small = shrink(ctx, c, qi, lambda ev2, i: bool(ev2[3][i]) or ev2[3][i] is None)
-                sqi = 0
-                r = run_impl(ctx, [small], tag='shrunk')[1][0][0]
+                sqi = len(small['queries']) - 1 if small.get('shared') else 0
+                r = run_impl(ctx, [small], tag='shrunk')[1][0][sqi]
+            if c.get('shared'):
+                sig = dict(sig, same_object_sequence=True)
             ctx.violation('correspondence',
-                          {'mesh': describe(small['mesh']), 'query': small['queries'][sqi]},
+                          {'mesh': describe(small['mesh']), 'query': small['queries'][sqi],
+                           'shared_object': bool(small.get('shared')),
+                           'earlier_queries_on_the_same_object':
+                               small['queries'][:sqi] if small.get('shared') else []},
                           'Model.run_query = implementation (sorted COO triples)',
                           {k: r.get(k) for k in ('shape', 'triples', 'exc', 'msg', 'elem_ids')},
                           'correspondence C13 (Model.run_query)',
@@ -530,7 +559,9 @@ def main(ctx):
         'explicit zeros, CSR->COO is row-major (pinned by the correspondence only)',
         'harness/c13.py oracle (the property in Python, exact integers) is a search aid, not proof',
     ]
-    ctx.assumptions += ['every query on a freshly built FEMData (lru_cache staleness is C19)',
+    ctx.assumptions += ['queries on a freshly built FEMData, plus a same-object stream (query '
+                        'sequences on one unmodified object must give the same answers); cache '
+                        'staleness after mesh modification is C19',
                         'node ids distinct, element ids distinct over all blocks, block keys in '
                         'ELEMENT_TYPES (wf_mesh); duplicate ids are outside the model']
     proof_ok, log = ctx.build_props('C13/Props.v')
@@ -563,6 +594,7 @@ def main(ctx):
         ctx.count('n_types:' + str(len(c['mesh']['blocks'])))
         ctx.count('components:' + str(tg.get('components')))
         ctx.count('unreferenced_nodes:' + str(tg.get('unref')))
+        ctx.count('object:' + ('one-shared-for-the-sequence' if c.get('shared') else 'fresh-per-query'))
         if tg.get('malformed'):
             ctx.count('malformed:' + tg['malformed'])
         for q, r in zip(c['queries'], results[c['id']]):
@@ -594,13 +626,16 @@ def replay(path):
         return 1
     mesh = {'nodes': [[n, 0, 0, 0] for n in c['mesh']['nodes']], 'blocks': c['mesh']['blocks'],
             'tags': {'kind': 'replay'}}
-    case = {'id': 0, 'mesh': mesh, 'queries': [c['query'], {'kind': 'inc', 'order1': False}]}
+    pre = c.get('earlier_queries_on_the_same_object', []) if c.get('shared_object') else []
+    k = len(pre)
+    case = {'id': 0, 'mesh': mesh, 'shared': bool(c.get('shared_object')),
+            'queries': pre + [c['query'], {'kind': 'inc', 'order1': False}]}
     lib.coq_make(['C13/Model.vo'])
     types, results, oracle_fail, corr = evaluate(ctx, [case], 'replay')
-    print('implementation:', json.dumps(results[0][0]))
+    print('implementation:', json.dumps(results[0][k]))
     print('property oracle:', oracle_fail[0] or 'holds')
     print('model agrees with implementation:', corr[0] == [] if corr[0] is not None else 'coq failed')
-    bad = any(qi == 0 for qi, _ in oracle_fail[0]) or (corr[0] is None or 0 in corr[0])
+    bad = any(qi == k for qi, _ in oracle_fail[0]) or (corr[0] is None or k in corr[0])
     print('property/correspondence', 'VIOLATED' if bad else 'holds', 'on this input')
     return 1 if bad else 0
 
